@@ -4,10 +4,9 @@ import "github.com/JunNishimura/Goit/internal/zzvp"
 
 // vpInitRepo: `goit init` + identity, in the model's empty work tree.
 func vpInitRepo() {
-	r := zzvp.Run("init")
-	zzvp.Assume(r.Exit == 0)
-	zzvp.Assume(zzvp.Run("config", "user.name", "A U Thor").Exit == 0)
-	zzvp.Assume(zzvp.Run("config", "user.email", "a@b.cd").Exit == 0)
+	vpOK(zzvp.Run("init"))
+	vpOK(zzvp.Run("config", "user.name", "A U Thor"))
+	vpOK(zzvp.Run("config", "user.email", "a@b.cd"))
 }
 
 func VP_Smoke() {
@@ -40,4 +39,10 @@ func VP_Smoke() {
 	zzvp.Assert(r.Exit == 0, "rev-parse ok")
 	zzvp.Note(r.Out)
 	zzvp.Done()
+}
+
+// vpOK: a scenario-prefix command must succeed for the scenario to continue; a crash is a violation, not an excluded case.
+func vpOK(r zzvp.Result) {
+	zzvp.Assert(r.Exit != 2, "no command of the scenario crashes")
+	zzvp.Assume(r.Exit == 0)
 }
